@@ -253,6 +253,9 @@ func (s *S3Proxy) ListObjectVersions(ctx context.Context, input *s3.ListObjectVe
 
 var defTime = time.Time{}
 
+// the content type S3 reports for an object that was stored without one
+const defaultContentType = "binary/octet-stream"
+
 func (s *S3Proxy) CreateMultipartUpload(ctx context.Context, input s3response.CreateMultipartUploadInput) (s3response.InitiateMultipartUploadResult, error) {
 	if input.CacheControl != nil && *input.CacheControl == "" {
 		input.CacheControl = nil
@@ -266,8 +269,12 @@ func (s *S3Proxy) CreateMultipartUpload(ctx context.Context, input s3response.Cr
 	if input.ContentLanguage != nil && *input.ContentLanguage == "" {
 		input.ContentLanguage = nil
 	}
-	if input.ContentType != nil && *input.ContentType == "" {
-		input.ContentType = nil
+	if input.ContentType == nil || *input.ContentType == "" {
+		// without a content type the SDK would pick one of its own
+		// (application/octet-stream), which the backend then stores and
+		// returns; S3's default for an object without one is this:
+		ct := defaultContentType
+		input.ContentType = &ct
 	}
 	if input.Expires != nil && *input.Expires == "" {
 		input.Expires = nil
@@ -697,8 +704,12 @@ func (s *S3Proxy) PutObject(ctx context.Context, input s3response.PutObjectInput
 	if input.ContentMD5 != nil && *input.ContentMD5 == "" {
 		input.ContentMD5 = nil
 	}
-	if input.ContentType != nil && *input.ContentType == "" {
-		input.ContentType = nil
+	if input.ContentType == nil || *input.ContentType == "" {
+		// without a content type the SDK would pick one of its own
+		// (application/octet-stream), which the backend then stores and
+		// returns; S3's default for an object without one is this:
+		ct := defaultContentType
+		input.ContentType = &ct
 	}
 	if input.ExpectedBucketOwner != nil && *input.ExpectedBucketOwner == "" {
 		input.ExpectedBucketOwner = nil
